@@ -3,7 +3,7 @@
 ws=$1; shift
 cd /verif
 git add -A; git commit -qm "wip before integrating $ws" 2>/dev/null
-git pull --no-edit /tmp/w/$ws/verif HEAD >/tmp/integrate_$ws.log 2>&1
+git pull --no-rebase --no-edit /tmp/w/$ws/verif HEAD >/tmp/integrate_$ws.log 2>&1
 for f in $(git diff --name-only --diff-filter=U); do
   case "$f" in
     evidence/*|coq/.nia.cache|coq/.lia.cache|MANIFEST.json|known_findings.json|docs/STATUS.md|docs/SEEDED.md|docs/FINDINGS.md)
